@@ -5,6 +5,7 @@ import SlogModel.Model.Route
 import SlogModel.Model.Redact
 import SlogModel.Model.Ser
 import SlogModel.Model.Pack
+import SlogModel.Model.Client
 import SlogModel.Gen.Facts
 import Driver.Util
 import Driver.XformParse
@@ -305,6 +306,53 @@ def handleCfg (st : DState) : List String → DState × String
       else (st, "reject")
   | _ => (st, "bad-op")
 
+
+/-! client trace monitor -/
+
+def natList (t : String) : Option (List Nat) :=
+  if t == "-" then some [] else (t.splitOn ",").mapM (·.toNat?)
+
+def parseObs (t : String) : Option Client.Obs :=
+  match t.splitOn ":" with
+  | ["o", k] => k.toNat?.map .openOk
+  | ["of"] => some .openFail
+  | ["st"] => some .stop
+  | ["s", k, c] => do some (.sendOk (← k.toNat?) (← c.toNat?))
+  | ["e", k, c] => do some (.sendErr (← k.toNat?) (← c.toNat?))
+  | ["pe", k] => k.toNat?.map .pingErr
+  | ["ac", k] => k.toNat?.map .ackCall
+  | ["a", k, "-"] => do some (.ack (← k.toNat?) none)
+  | ["a", k, i] => do some (.ack (← k.toNat?) (some (← i.toNat?)))
+  | ["ae", k] => k.toNat?.map .ackErr
+  | ["c", c] => c.toNat?.map .consumed
+  | ["l", c] => c.toNat?.map .leftover
+  | ["f"] => some .finished
+  | _ => none
+
+def obsEv : Client.Obs → Option Client.Ev
+  | .sendOk k c => some (.sendOk k c)
+  | .sendErr k c => some (.sendErr k c)
+  | .ack k id => some (.ack k id)
+  | .ackErr k => some (.ackErr k)
+  | .consumed c => some (.consumed c)
+  | .leftover c => some (.leftover c)
+  | .finished => some .finished
+  | _ => none
+
+def handleClient : List String → String
+  | "trace" :: q :: taken :: evs =>
+    match natList q, natList taken, evs.mapM parseObs with
+    | some q, some taken, some obs =>
+      match Client.checkTrace taken (obs.filterMap obsEv) with
+      | some why => "violates " ++ why
+      | none =>
+        match Client.monitor q taken obs with
+        | some why => "rejected " ++ why
+        | none => "ok"
+    | _, _, _ => "bad-op"
+  | "script" :: _ => "any"
+  | _ => "bad-op"
+
 def handle (st : DState) (line : String) : DState × String :=
   match fields line with
   | "time" :: rest => (st, handleTime rest)
@@ -315,6 +363,7 @@ def handle (st : DState) (line : String) : DState × String :=
   | "pack" :: rest => handlePack st rest
   | "xform" :: rest => handleXform st rest
   | "cfg" :: rest => handleCfg st rest
+  | "client" :: rest => (st, handleClient rest)
   | ["redact", h] =>
     match unhex h with
     | none => (st, "bad-op")
